@@ -8,6 +8,7 @@ import (
 	"sort"
 	"strings"
 
+	"github.com/named-data/ndnd/fw/dispatch"
 	"github.com/named-data/ndnd/fw/face"
 	"github.com/named-data/ndnd/fw/table"
 	enc "github.com/named-data/ndnd/std/encoding"
@@ -66,6 +67,29 @@ func FaceDown(f uint64) Op {
 		return ""
 	}}
 }
+
+// FaceAdd registers a new face (a null link service on a null transport) in the face table; the
+// result is the face id it was given. The id is remembered in slot so that the same thread can
+// tear down its own face later (a face is only ever removed after it was added).
+var addedSlot [4]uint64
+
+func FaceAdd(slot int) Op {
+	return Op{"FaceAdd", fmt.Sprintf("FaceAdd(#%d)", slot), func(func()) string {
+		l := face.MakeNullLinkService(face.MakeNullTransport())
+		face.FaceTable.Add(l)
+		addedSlot[slot] = l.FaceID()
+		return fmt.Sprint("id=", l.FaceID())
+	}}
+}
+
+// FaceDownOwn tears down the face this thread added in slot.
+func FaceDownOwn(slot int) Op {
+	return Op{"FaceDown", fmt.Sprintf("FaceDownOwn(#%d)", slot), func(func()) string {
+		face.FaceTable.Remove(addedSlot[slot])
+		return ""
+	}}
+}
+
 func FibInsert(p string, f, c uint64) Op {
 	return Op{"FibInsert", fmt.Sprintf("FibInsert(%s,f%d,c%d)", p, f, c), func(func()) string {
 		table.FibStrategyTable.InsertNextHopEnc(nm(p), f, c)
@@ -150,6 +174,8 @@ func Setup(fib string, s Scenario) {
 		table.VerifNewFibHT(2)
 	}
 	table.VerifResetRib()
+	face.VerifResetFaceTable()
+	addedSlot = [4]uint64{}
 	for _, op := range s.Init {
 		op.Run(func() {})
 	}
@@ -162,6 +188,14 @@ func Final() string {
 		fmt.Fprintf(&b, "%s=>{%s}/%s ", n, nhStr(table.FibStrategyTable.FindNextHopsEnc(nm(n))), LookupStrategy(n).Run(func() {}))
 	}
 	b.WriteString("| " + ListFib().Run(func() {}) + " | " + ListRib().Run(func() {}))
+	// face table and dispatch table: registered ids (each face under its own id)
+	ids := []string{}
+	for _, l := range face.FaceTable.GetAll() {
+		ok := face.FaceTable.Get(l.FaceID()) == l && dispatch.GetFace(l.FaceID()) != nil
+		ids = append(ids, fmt.Sprintf("%d:%v", l.FaceID(), ok))
+	}
+	sort.Strings(ids)
+	b.WriteString(" | faces " + strings.Join(ids, ","))
 	return b.String()
 }
 
@@ -185,6 +219,8 @@ func All(thorough bool) []Scenario {
 		"X4": {FibInsert("/a", 4, 8)},
 		"S1": {SetStrategy("/a")},
 		"S2": {SetStrategy("/a/b"), UnsetStrategy("/a/b")},
+		"A1": {FaceAdd(0)},
+		"A2": {FaceAdd(1), FaceDownOwn(1)},
 		"F1": {FaceDown(1)},
 		"F2": {FaceDown(2)},
 		"L1": {Lookup("/a/b")},
